@@ -29,40 +29,40 @@ ASSUMPTIONS = ['single-contig kernels get_pileup / get_boolean_mask / merge_inte
                'and the running-maximum merge (their correctness is property C08); npstructures run-length arrays are '
                'read through to_array()',
                'intervals with start > stop are not generated (C10_model_ok_spec_ok assumes start <= stop); zero-length '
-               'intervals are not used for array/sequence extraction (npstructures np.where fails on them irrespective of '
-               'chromosomes)',
+               'intervals are used for sequence extraction (sets of empty / length-1 intervals are ordinary cases since the '
+               'np.where repair broadcast_row_mask) but not for array-value extraction (GenomicArray[intervals]: not part of that repair, left as it was)',
                'merged() is exercised on input sorted by (chromosome, start) as merge_intervals requires',
                'the streamed classes (GenomicIntervalsStreamed, GenomicArrayNode, GenomicLocationStreamed) are outside this '
                'property (its observe_at lists the in-memory API; streams are C11/C12)',
-               'the indexed-FASTA sequence route is exercised after with_ignored_added only with existing names: a name that is not in '
-               'the file makes IndexedFasta raise KeyError at HEAD (notes/C10.fix-5.diff, flag FASTA_WITH_NEW_IGNORED)',
+               'the indexed-FASTA sequence route is exercised after with_ignored_added with existing AND new names (a name that is not in '
+               'the file made IndexedFasta raise KeyError before notes/C10.fix-5.diff, committed as d821780; flag FASTA_WITH_NEW_IGNORED = True)',
                'translator reading: element-wise NumPy expressions per element; np.any/np.all guards as per-element '
                'predicates; np.searchsorted as a call of the model function with the side passed on']
-PARTIAL = ['C10_strandedness_preserved / C10_prog_spec hold for extended_to_size only when it passes the strandedness flag on; at HEAD it '
-           'does not (C10_strandedness_lost_refuted, model constant extend_keeps_strand = false, notes/C10.fix-6.diff): stranded programs '
-           'with an extended_to_size step are generated only with the strand-insensitive consumer get_location(center) '
-           '(flag EXTEND_KEEPS_STRAND)',
-           'C10_clip_partial / C10_clip_one_sided_refuted: GenomicIntervalsFull.clip equals the single-contig clip (two-sided since '
-           'fc449e4) only for intervals reaching their chromosome range (start <= size, 0 <= stop); an interval entirely outside '
-           'comes out inverted — outside the quantifier (intervals of a chromosome), not generated; notes/C10.fix-4.diff',
-           'C10_seq_partial: stranded sequence extraction is right unless every interval has length 1 (C10_seq_refuted; known finding)',
+PARTIAL = ['C10_strandedness_preserved / C10_prog_spec carry the hypothesis (extend_keeps_strand = true \\/ unstranded \\/ no extended_to_size step); '
+           'it is discharged for the code at HEAD: extended_to_size passes the strandedness flag on since 6e6bc4f (notes/C10.fix-6.diff committed), the '
+           'model constant is extend_keeps_strand = true and stranded programs with an extended_to_size step are generated with every consumer '
+           '(flag EXTEND_KEEPS_STRAND = True); C10_strandedness_lost_refuted is history about the code before that commit',
+           'C10_clip_partial: GenomicIntervalsFull.clip equals the single-contig two-sided clip for intervals reaching their chromosome range '
+           '(start <= size, 0 <= stop); an interval entirely outside is clipped to an empty interval inside the chromosome since 8f28cdf '
+           '(notes/C10.fix-4.diff committed) and is generated (flag CLIP_OUTSIDE_FULL = True); C10_clip_one_sided_refuted is history about the one-sided formula',
+           'C10_seq is in force without a guard: stranded sequence extraction is right for every interval set, also when every interval has '
+           'length 1 or is empty (np.where repair broadcast_row_mask, notes/C14.fix-2.final.diff; the mask expression of GenomicSequence.extract_intervals '
+           'is regenerated and tied in Bridge/C14.v); C10_seq_pinned_partial / C10_seq_pinned_refuted are history about the column-mask code '
+           '(former finding C10-seq-stranded-all-length-one)',
            'History (code before fix-1/2/3, definitions *_pinned kept): C10_merged_pinned_partial + *_refuted, '
            'C10_pileup_negative_start_refuted, C10_location_pinned_partial/_refuted',
            'C10_sorted / C10_geo_sort prove permutation + order, not stability (ties are indistinguishable in the observed columns)',
            'list-level NumPy (cumsum offsets table, searchsorted, lexsort, run-length slicing), sequence lookup and the C08 kernels '
            'are tied by correspondence only (not translated)']
 PER_FILE = 40
-# GenomicIntervalsFull.clip on an interval lying entirely outside its chromosome ([5,7) on size 3 -> [5,3) at HEAD) is
-# outside the property's quantifier (intervals of a chromosome) and is only generated once notes/C10.fix-4.diff is
-# committed (then set this to True and switch m_clip_start / m_clip_stop in Model/C10.v).
+# GenomicIntervalsFull.clip on an interval lying entirely outside its chromosome ([5,7) on size 3 gave [5,3) before
+# notes/C10.fix-4.diff, committed as 8f28cdf; m_clip_start / m_clip_stop in Model/C10.v are the two-sided form): generated.
 CLIP_OUTSIDE_FULL = True
 # Genome.from_file(fasta).with_ignored_added([<name not in the file>]).read_sequence()[intervals] raises KeyError at HEAD
-# (IndexedFasta._get_interval_sequences_fast looks every label of the encoding up in the .fai) — notes/C10.fix-5.diff.
-# Until that is committed the indexed-FASTA route is only generated with steps that add existing names.
+# before notes/C10.fix-5.diff (committed as d821780); the indexed-FASTA route is generated with new names as well.
 FASTA_WITH_NEW_IGNORED = True
-# GenomicIntervalsFull.extended_to_size() drops the strandedness flag at HEAD (from_intervals(.., genome_context) without
-# is_stranded): stranded programs with an extended_to_size step followed by a strand-sensitive use are generated only once
-# notes/C10.fix-6.diff is committed (then set this to True and extend_keeps_strand := true in Model/C10.v).
+# GenomicIntervalsFull.extended_to_size() dropped the strandedness flag before notes/C10.fix-6.diff (committed as 6e6bc4f;
+# extend_keeps_strand := true in Model/C10.v): stranded programs with an extended_to_size step are generated with every consumer.
 EXTEND_KEEPS_STRAND = True
 
 ERR = {'AssertionError': 1, 'AttributeError': 2, 'IndexError': 3, 'GenomeError': 4, 'Exception': 5,
@@ -198,6 +198,20 @@ def _ops_for(rng, genome, filt, es, es_all, shuffled, locs, tier, added=()):
             add(['seq', st, 'dict'], ne, seqs)
             if FASTA_WITH_NEW_IGNORED or len(ext) == len(genome):
                 add(['seq', st, 'fasta'], ne, seqs)
+        # the class that raised before the np.where repair (broadcast_row_mask): at least as many intervals as bases —
+        # every interval of length 1, all of them empty, a mixture — now ordinary cases
+        at = [e for e in shuffled if 0 <= e[1] < ext[e[0]][1]]
+        ones = [[c, s_, s_ + 1, f] for c, s_, t, f in at]
+        zeros = [[c, s_, s_, f] for c, s_, t, f in at]
+        mixed = [x for pair in zip(ones, zeros[::-1]) for x in pair]
+        for k, small in enumerate((ones, zeros, mixed, ones[:1], mixed[:3])):
+            if not any(e[0] in inc_ for e in small):
+                continue
+            add(['seq', 1, 'dict'], small, seqs)
+            if k < 3 and (FASTA_WITH_NEW_IGNORED or len(ext) == len(genome)):
+                add(['seq', 1, 'fasta'], small, seqs)
+            if k == 0:
+                add(['seq', 0, 'dict'], small, seqs)
     return out
 
 
@@ -294,8 +308,6 @@ def _programs(rng, genome, filt, added, shuffled, tier):
         loses = stranded and any(st[0] == 'extend' for st in steps) and not EXTEND_KEEPS_STRAND
         conss = [['location', 2]] if loses else [['extract'], ['seq'], ['location', rng.choice([0, 1])], ['location', 2]]
         for cons in conss:
-            if cons[0] == 'seq' and all(t - s_ == 1 for c, s_, t, f in fin):
-                continue          # the known np.where failure on all-length-1 tables is exercised by the plain seq cases
             out.append(dict(genome=genome, filter=filt, added=[list(x) for x in added], entries=entries,
                             vals=(seqs if cons[0] == 'seq' else vals if cons[0] == 'extract' else None),
                             op=['prog', stranded, steps, cons]))
@@ -707,9 +719,8 @@ def finding(case, o):
     op = case['op']
     es = _vis(case)
     g = _g(case)
-    if op[0] == 'seq' and op[1] == 1 and o.get('exc') == 'AttributeError' and "'_shape'" in o.get('msg', '') \
-            and es and all(e[2] - e[1] == 1 for e in es):
-        return 'C10-seq-stranded-all-length-one'
+    # (the former finding C10-seq-stranded-all-length-one was repaired in the library — broadcast_row_mask, notes/C14.fix-2.final.diff;
+    #  that class is generated as ordinary cases and a failure there is a VIOLATION)
     if op[0] == 'prog' and op[1] == 1 and any(sp[0] == 'extend' for sp in op[2]):
         # exactly what an UNSTRANDED table gives after the extended_to_size step: rows not reversed / complemented,
         # locations at the left (start) resp. right (stop) end whatever the strand
